@@ -99,6 +99,7 @@ def decode(data: bytes) -> dict:
         elif r3 == 1:
             it["repeat"] = True
         case["items"].append(it)
+    case["log_debug"] = d.p(0.12)
     return case
 
 
@@ -327,7 +328,7 @@ class C17Engine(Engine):
                 else:
                     ex.cancel()
                 return result
-            return run_in_fresh_loop(main)
+            return run_in_fresh_loop(main, debug_log=bool(case.get("log_debug")))
 
         viol: List[dict] = []
 
